@@ -410,7 +410,7 @@ def explore(sig, phase, b, res, first_only=True):
         k = post.key()
         if k not in seen and len(post.V) <= b['vcap'] and all(
             v in allowed for v in itertools.chain(
-                (x for x in k[0] if x is not None), k[1],
+                (x for x in k[0] if x != M.UNSET_KEY), k[1],
                 (kv[1] for kv in k[2]))):
           seen[k] = (init, hist + [op])
           frontier.append(post)
